@@ -107,7 +107,7 @@ impl Check for C01 {
         "C01"
     }
     fn rule(&self) -> &'static str {
-        "case = one lookahead-free mode (1-6 generated patterns, half via add_patterns) x 8 inputs sampled from the pattern languages (+prefixes, near misses, foreign and multi-byte characters), plus the bounded-exhaustive set of all pattern pairs over a tiny grammar x all inputs over {a,b,c} up to length 5, plus the string of all 1 112 064 scalar values in 272 slices under two class-free pattern lists (run first); oracle = independent set-based matcher + longest-match/first-listed tokenizer, token lists compared for equality; non-trivial = some scan position where two different patterns both have a candidate (competition); distinct = hash of the decoded case"
+        "case = one lookahead-free mode (1-6 generated patterns, half via add_patterns) x 8 inputs sampled from the pattern languages (+prefixes, near misses, foreign and multi-byte characters), plus the bounded-exhaustive set of all pattern pairs over a tiny grammar x all inputs over {a,b,c} up to length 5, plus the string of all 1 112 064 scalar values in 272 slices under two class-free pattern lists (run first), plus 14 cases in which one automaton state is visited twice exactly 2^15 / 2^16 (+-2) scan steps apart (inside one token of that length, and across that many one-character tokens); oracle = independent set-based matcher + longest-match/first-listed tokenizer, token lists compared for equality; non-trivial = some scan position where two different patterns both have a candidate (competition); distinct = hash of the decoded case"
     }
     fn cases(&self, thorough: bool) -> usize {
         if thorough {
@@ -121,6 +121,25 @@ impl Check for C01 {
         // every scalar value once, in ascending order, as one input: spans and winners for every
         // code point (the patterns have no named class, so that the reference needs no measured
         // base set)
+        // two visits of one automaton state exactly 2^15 / 2^16 (+-2) scan steps apart: inside one
+        // long token, and across tens of thousands of one-character tokens of one iterator
+        let mode = |pats: &[(&str, usize)]| ModeSpec {
+            name: "INITIAL".into(),
+            pats: pats.iter().map(|(s, tt)| PatSpec { rx: rx::parse_supported(s), tt: *tt, la: None }).collect(),
+            transitions: vec![],
+        };
+        for k in [32_766usize, 32_767, 65_533, 65_534, 65_535, 65_536, 65_537] {
+            v.push(Case {
+                modes: vec![mode(&[("(?:xy+)+", 0), ("z", 1)])],
+                inputs: vec![format!("x{}xyz", "y".repeat(k)), format!("xy{}xyyz", "x".repeat(0)) + &"xy".repeat(k / 2)],
+                ..Case::default()
+            });
+            v.push(Case {
+                modes: vec![mode(&[("x", 0), ("ab", 1), ("a", 2)])],
+                inputs: vec![format!("ab{}ab", "x".repeat(k)), format!("ab{}a", "x".repeat(k))],
+                ..Case::default()
+            });
+        }
         v.extend(scalar_slice_cases(
             &[
                 &["[^a]", "a"],
